@@ -191,6 +191,18 @@ Proof.
 Qed.
 Print Assumptions C09_aligner_score_is_optimal.
 
+(* ... and it is attained: 0, or the score of some valid local alignment of the two sequences.  Together: the score the
+   code model reports is exactly the maximum over all valid local alignments (or 0 when none is positive) *)
+Theorem C09_aligner_score_is_attained :
+  forall sc s1 s2 r,
+  sc_open sc <= sc_extend sc -> sc_extend sc < 0 -> NEG <= sc_open sc ->
+  align_pair false sc s1 s2 = Some r ->
+  r_score r = 0 \/
+  exists r1 r2 st1 st2 en1 en2, valid_alignment s1 s2 r1 r2 st1 st2 en1 en2 /\
+    score_cols (sub_of sc (pick_matrix s1 s2)) (sc_open sc) (sc_extend sc) r1 r2 0 = r_score r.
+Proof. exact align_pair_score_attained. Qed.
+Print Assumptions C09_aligner_score_is_attained.
+
 (* What remains a statement: the rows RETURNED by the trace-back score exactly the reported score (they are valid:
    C09_aligner_returns_valid_alignment); it is proved on the finite domains above and judged per case by Corr/C09.v. *)
 Definition C09_aligner_rows_score_statement : Prop :=
